@@ -135,6 +135,14 @@ def run_program(nodes, observe, captured, labels, yield_now=lambda: None, depth=
       observe(call=False)
     elif kind == 'call':
       observe(call=True)
+    elif kind == 'reload':
+      # the configuration is cleared and loaded again inside whatever scopes are open: clearing
+      # the bindings has nothing to do with the scopes that are active
+      gin.clear_config()
+      gin.parse_config(CONFIG)
+      gin.parse_config('c09user.x = @a/b/c09probe()')
+      labels.add('clear_config-inside-open-scopes')
+      observe(call=True, what='after clear_config + parse inside the open scopes')
     elif kind == 'make':
       # a scope manager created here and entered later, possibly inside another scope: what counts
       # is the scope active when it is *entered*
@@ -428,8 +436,8 @@ _valid_spec = st.one_of(
     st.just(['none']))
 
 
-def _nodes(depth, spec=_spec):
-  leaf = st.sampled_from([['check'], ['call'], ['scribble'], ['make', 'b'], ['make', 'x/y'],
+def _nodes(depth, spec=_spec, single=False):
+  leaf = st.sampled_from(([['reload']] if single else []) + [['check'], ['call'], ['scribble'], ['make', 'b'], ['make', 'x/y'],
                           ['scoped-call', 0], ['scoped-call', 1],
                           ['scoped-call', 2], ['scoped-call', 4]])
   if depth <= 0:
@@ -437,10 +445,10 @@ def _nodes(depth, spec=_spec):
   node = st.one_of(
       leaf,
       st.tuples(st.just('with'), spec, st.sampled_from(['normal', 'normal', 'raise']),
-                _nodes(depth - 1, spec)).map(list),
+                _nodes(depth - 1, spec, single)).map(list),
       st.tuples(st.just('with'), spec, st.sampled_from(['normal', 'raise', 'raise-base',
                                                         'genclose']),
-                _nodes(depth - 1, spec)).map(list))
+                _nodes(depth - 1, spec, single)).map(list))
   return st.lists(node, min_size=1, max_size=3)
 
 
@@ -463,7 +471,7 @@ def _successive_case(draw):
 
 
 def strategy():
-  single = _nodes(5).map(lambda p: {'kind': 'single', 'program': p})
+  single = _nodes(5, single=True).map(lambda p: {'kind': 'single', 'program': p})
   return st.one_of(single, single, single, single, _threads_case(), _threads_case(),
                    _successive_case())
 
